@@ -49,6 +49,13 @@ CLAIMS["C12"] = (
     "DESIGN.md §3 C12",
 )
 
+CLAIMS["C05"] = (
+    "sibling cross-check of all IRecordReader implementations by typestate/path rules on SSA, upward-exposed-field analysis for per-file resets, store-effect extraction, cursor write-back path rule over all verb parsers",
+    "Decides the bookkeeping discipline behind NR/FNR/FILENAME and file concatenation for every reader: exact store effects of the two context updates; every record created after exactly one count on every path; one file-start per handle before any production; every batch-carried reader field reset per file; all readers open inputs through the same helpers with the same options; NF read from the live record; every verb CLI parser stores the argument cursor back on every successful return. It does not decide 'then' ≡ pipe or the values of NR in end blocks.",
+    "Trusts go/ssa; batch functions reached through function-valued reader fields are resolved from the stores into those fields.",
+    "DESIGN.md §3 C05",
+)
+
 NOT_APPLICABLE = {
     "C13": "Join pairing, ordering and unpaired accounting are relational identities over run-time key values and bucket contents; no clause is a shape fact visible to static analysis (the shared protocol facts are reported under C04/C10/C17).",
 }
